@@ -14,6 +14,7 @@ from sa.rules import ctor as CT
 from sa.rules import det as D
 from sa.rules import falsy as FA
 from sa.rules import file as F
+from sa.rules import fwd as FW
 from sa.rules import mod as M
 from sa.rules import null as N
 from sa.rules import order as O
@@ -50,6 +51,22 @@ def det3(name, *roots):
     return scoped(D.rule_det3, "det3_" + name, *roots)
 
 
+FWD_ACCEPTED = {
+    ("docstring_parsers.parse_docstring", "option-not-forwarded:default_search_announce->emitter_utils.interpolate_defaults"):
+        "outside every property's domain (they quantify over the four built-in announcement phrases); observed and noted in DESIGN: the ReST phase ignores a custom "
+        "announcement that the google/numpydoc phase honours",
+    ("emit.argparse_function", "option-not-forwarded:emit_default_doc->emit.docstring"):
+        "the IR handed to the helper docstring carries no `default` key (fixed `argument_parser` parameter, return entry of doc and typ only), so no default sentence can be "
+        "written there; the parser reads the return default from the `return` statement",
+    ("parse.class_", "option-not-forwarded:infer_type->parse.class_"):
+        "live-class path only (class_ given a `type`, re-parsed from inspect.getsource): outside the claimed properties' domains (C02 observes parse.class_(ClassDef)); "
+        "observed and noted in DESIGN: on that path the body is parsed with the default infer_type",
+    ("parse.class_", "option-not-forwarded:word_wrap->parse.class_"):
+        "live-class path only, as above: the body is parsed with the default word_wrap",
+    ("parse.class_", "option-not-forwarded:infer_type->parse.docstring"):
+        "type inference from defaults is done by the final _set_name_and_type pass of class_ with the caller's infer_type after the attribute values were merged in",
+}
+
 DET1_ACCEPTED = {
     ("parser_utils._join_non_none", "insert-into-param:primacy"):
         "inserts into a parameter dict (level L2) whose key order is unobservable: DET-1b checks that nothing iterates / serialises such dicts",
@@ -67,7 +84,7 @@ spec("C01", "Docstring round trip",
      not_decided="IR equality after emit->parse (values); prose that itself contains a marker of another style; exceptions other than the definite None dereference")
 
 spec("C02", "Config-class round trip",
-     [named(O.rule_order, "rule_order_class", only=("emit.class_",)), TB.rule_table_cvar, scoped(FA.rule_falsy, "falsy_class", "emit.class_", "parse.class_"), det3("class", "emit.class_", "parse.class_")],
+     [named(O.rule_order, "rule_order_class", only=("emit.class_",)), TB.rule_table_cvar, scoped(FA.rule_falsy, "falsy_class", "emit.class_", "parse.class_"), named(FW.rule_fwd, "rule_fwd", accepted=FWD_ACCEPTED), det3("class", "emit.class_", "parse.class_")],
      "Necessary conditions: (ORDER) the class emitter produces exactly one attribute per parameter, in mapping order, never None, named by the parameter's key, with "
      "no filter/sort between the mapping and the attribute list; (TABLE-cvar) the ':cvar' marker and the reserved 'return_type' attribute written by the class "
      "emitter are exactly what the class and function parsers substitute / pop back. (DET-3, scoped) no function on this property's code path writes state that outlives the call (module globals/objects, function or class attributes, mutated mutable defaults, memoised mutable results): the conversion is not history-dependent.",
@@ -77,7 +94,7 @@ spec("C02", "Config-class round trip",
 
 spec("C03", "Function / method round trip",
      [named(O.rule_order, "rule_order_function", only=("emit.function",)), A.rule_align_emit, A.rule_align_parse, TB.rule_table_kind, N.rule_null1, N.rule_null2,
-      scoped(FA.rule_falsy, "falsy_function", "emit.function", "parse.function"), det3("function", "emit.function", "parse.function")],
+      scoped(FA.rule_falsy, "falsy_function", "emit.function", "parse.function"), named(FW.rule_fwd, "rule_fwd", accepted=FWD_ACCEPTED), det3("function", "emit.function", "parse.function")],
      "Necessary conditions: (ORDER) one argument per non-**kwargs parameter in order, named by the key, with the name-only **kwargs partition and its complement both "
      "consumed; (ALIGN-emit) defaults/kw_defaults are built one per argument from the same sequence (symbolic length identities over all paths); (ALIGN-parse) "
      "signature defaults are padded to exactly the argument count and keep their positions; (TABLE-kind) self/cls/static and the **kwargs suffix agree between "
@@ -89,7 +106,7 @@ spec("C03", "Function / method round trip",
 spec("C04", "argparse round trip",
      [named(O.rule_order, "rule_order_argparse", only=("emit.argparse_function",)), TB.rule_table_argparse,
       scoped(FA.rule_falsy, "falsy_argparse", "emit.argparse_function", "parse.argparse_ast"), scoped(FA.rule_stripset, "stripset_argparse", "emit.argparse_function", "parse.argparse_ast"),
-      det3("argparse", "emit.argparse_function", "parse.argparse_ast")],
+      named(CO.rule_coord, "rule_coord_defaults"), named(FW.rule_fwd, "rule_fwd", accepted=FWD_ACCEPTED), det3("argparse", "emit.argparse_function", "parse.argparse_ast")],
      "Necessary conditions: (ORDER) exactly one add_argument call per parameter, in order, carrying '--<key>'; (TABLE-argparse) every keyword by which the emitter "
      "carries IR information is read by the parser, the '--' prefix added is the prefix stripped, the recogniser predicates test both receiver and attribute the "
      "emitter builds, written action constants are understood. (DET-3, scoped) no function on this property's code path writes state that outlives the call (module globals/objects, function or class attributes, mutated mutable defaults, memoised mutable results): the conversion is not history-dependent.",
@@ -119,7 +136,7 @@ spec("C07", "Parsing faithful to Python's view",
 
 spec("C08", "Fixed point after one pass",
      [TB.rule_table_announce, scoped(FA.rule_falsy, "falsy_defaults", "defaults_utils.set_default_doc", "defaults_utils.extract_default", "emitter_utils.interpolate_defaults"),
-      det3("all", "emit.docstring", "emit.class_", "emit.function", "emit.argparse_function", "parse.docstring", "parse.class_", "parse.function", "parse.argparse_ast"),
+      named(CO.rule_coord, "rule_coord_defaults"), named(FW.rule_fwd, "rule_fwd", accepted=FWD_ACCEPTED), det3("all", "emit.docstring", "emit.class_", "emit.function", "emit.argparse_function", "parse.docstring", "parse.class_", "parse.function", "parse.argparse_ast"),
       C.rule_call_dispatch],
      "Necessary condition: (TABLE-announce b) each writer of the default sentence recognises its own sentence as 'already present' - either by calling the reader "
      "itself or by a substring of the written phrase - otherwise one more sentence is appended on every pass. (DET-3, scoped) no function on this property's code path writes state that outlives the call (module globals/objects, function or class attributes, mutated mutable defaults, memoised mutable results): the conversion is not history-dependent.",
@@ -214,7 +231,7 @@ spec("C17", "Defaults through prose",
      not_decided="the numeric/boolean coercion ladder, end-of-value scan, the arithmetic of the removal offsets themselves (character-level)")
 
 spec("C18", "Wrapping / line length transparent",
-     [T.rule_typeflow, T.rule_wrap_last, det3("emit", "emit.docstring", "emit.class_", "emit.function", "emit.argparse_function")],
+     [T.rule_typeflow, T.rule_wrap_last, named(CO.rule_coord, "rule_coord_defaults"), det3("emit", "emit.docstring", "emit.class_", "emit.function", "emit.argparse_function")],
      "Necessary conditions: (TYPEFLOW) the configured width read from the environment passes int()/float() before every numeric sink (width= of textwrap, comparison with "
      "len()); (WRAP-LAST) no reader of prose (default-sentence scanner) is applied to an already word-wrapped string. (DET-3, scoped) no function on this property's code path writes state that outlives the call (module globals/objects, function or class attributes, mutated mutable defaults, memoised mutable results): the conversion is not history-dependent.",
      floors={"TYPEFLOW": 2, "WRAP-LAST": 5},
